@@ -115,4 +115,13 @@ example :
       [.start 0 0 0, .start 1 1 9, .broadcastAbort, .item 0 0 none, .item 1 1 (some 3), .ret (.ok 3 9 1 1) []] := by
   decide
 
+/-- The stop conditions in force are exactly the ones given: the compiled target is the number that was written - not
+    a neighbour of it - and the time limit the duration that was written (`termination::compile`; the budget is
+    `C16_criteria_budget`).  Together with `C04_target` the run therefore stops on `best <= t` for the caller's own `t`. -/
+theorem C04_criteria_kept (cs : List Launch.Crit) (c : Launch.Compiled) (h : Launch.compile cs = some c) :
+    (∀ t, c.target = some t ↔ Launch.Crit.target t ∈ cs) ∧ (∀ d, c.after = some d ↔ Launch.Crit.after d ∈ cs) :=
+  ⟨Launch.compile_target cs c h, Launch.compile_after cs c h⟩
+
+example : Launch.compile [.target (.fin 7), .after 1500] = some { target := some (.fin 7), after := some 1500 } := by decide
+
 end Cambrian.Props
